@@ -7,6 +7,7 @@ for j in /tmp/seedconf/*.json; do
   [ "$ok" = "True" ] || { echo "not confirmed: $n"; continue; }
   case $n in
     R2_*) p=$(echo $n | cut -d_ -f2); m=$(echo $n | cut -d_ -f3); src=/tmp/seedout2/$p/$m; k="r2-${m#m}";;
+    R3_*) p=$(echo $n | cut -d_ -f2); m=$(echo $n | cut -d_ -f3); src=/tmp/seedout3/$p/$m; k="r3-${m#m}";;
     *)    p=$(echo $n | cut -d_ -f1); m=$(echo $n | cut -d_ -f2); src=/tmp/seedout/$p/$m; k="${m#m}";;
   esac
   [ -f $src/eval.json ] || { echo "no eval: $n"; continue; }
